@@ -272,8 +272,8 @@ def probe_cases():
                 "peers": [{"type": "req", "rid": A, "manual": False}],
                 "steps": [{"op": "join", "peer": 0}, {"op": "c2r", "peer": 0, "payload": [frame(b"q")]},
                           {"op": "r2c", "to": 0, "via": "frames", "payload": [frame(b"r")]}]})
-    if os.environ.get("C11_PROBE_INPROC_REQ"):
-        # not yet recorded (would be VIOLATION until it has a known_findings entry with this signature):
+    if True:
+        # recorded finding C11:inproc-req-default-strategy-exposes-envelope:
         # over inproc the ROUTER never learns the peer's socket type, send_multipart uses the Default strategy and a
         # REQ peer's application receives [identity, "", payload...]
         out.append({"k": "stack", "probe": "inproc-req-default-strategy-exposes-envelope", "transport": "inproc",
